@@ -69,6 +69,11 @@ def handleCR (st : St) (n : Nat) (toks : List String) : Result := Id.run do
     st := { st with nOK := st.nOK + 1 }
     outs := outs ++ [s!"OK {n}"]
   else st := { st with nDiv := st.nDiv + 1 }
+  -- a store written in the released on-disk format is read back by the code under test (restart after an upgrade)
+  let legacy := (get "legacy").getD "-"
+  if legacy != "-" && oldState != legacy then
+    let f := fail st n "C06" s!"a store written in the released format is not read back after restart: the log's checkpoint is {if oldState == "-" then "missing" else "different"} although it was acknowledged before (everything acknowledged is lost to the upgraded witness)"
+    st := f.st; outs := outs ++ f.out
   -- monitors (C06), independent of the model's event script
   if !(isOld || isNew) then
     let f := fail st n "C06" s!"{kind} update killed at driver event {killat}/{total}: after reopening, the log holds neither the old nor the new checkpoint ({newState.take 40})"
